@@ -18,6 +18,7 @@ EXPLANATION = (
 def run(e, R, tier):
     R.run_rules(e, [
         T.r_timeout_exit,
+        L.r_iter_snapshot,
         S.r_exit_handshake,
         T.r_respawn_guard,
         T.r_spawn_locked,
